@@ -8,10 +8,11 @@ THEOREMS = ["Mesa.Devs." + t for t in (
     "C14_queue_sorted", "C14_next_is_least_live", "C14_exactly_once_accounting", "C14_never_twice",
     "C14_only_cancelled_or_dead_discarded", "C14_cancelled_never_popped", "C14_cancelled_never_executes", "C14_cancel_marks", "C14_clock_is_event_time",
     "C14_clock_monotone", "C14_run_until_post", "C14_schedule_rejects_exactly", "C14_peek_is_execution_order",
-    "C14_priority_order_generated", "C14_upfront_events_run_in_sorted_order")]
+    "C14_priority_order_generated", "C14_upfront_events_run_in_sorted_order", "C14_heapq_is_priority_queue",
+    "C14_heap_refines_sorted_queue")]
 COUNTS = {"quick": 600, "thorough": 200000}
 TRUSTED = [
-    "CPython heapq: heappop returns the least element w.r.t. SimulationEvent.__lt__ (the model keeps a sorted list)",
+    "heapq: no longer assumed — Model/Heap.lean transcribes Lib/heapq.py (heappush/heappop/_siftdown/_siftup), Proofs/Heap.lean proves it a priority queue for any strict weak order, Proofs/DevsHeap.lean proves the model's sorted list a sound abstraction of the heap array, and every check compares the transcription's array layout with CPython's heapq (the C accelerator _heapq is what actually runs); trusted: that EventList reaches its list only through heappush / heappop / iteration (read off the source)",
     "CPython weakref: a callable dies exactly when the program drops its last strong reference (refcounting)",
     "times are ints in units of 1/1024: ints and dyadic floats, for which the code's +, <, <= are exact; IEEE rounding of other floats is not modelled",
     "event actions are command lists (schedule / cancel / drop); arbitrary Python side effects of callbacks are not modelled",
@@ -66,3 +67,40 @@ def tags(sc, obs):
 if __name__ == "__main__":
     import sys
     core.main(sys.modules[__name__])
+
+
+def extra(ctx):
+    """the Lean transcription of heapq (Model/Heap.lean, proved to be a priority queue in Proofs/Heap.lean) against CPython's
+    heapq itself: same array layout after every push / pop, for random key sequences with many ties"""
+    import heapq
+    import random
+
+    R = random.Random(f"C14-heapq/{ctx.seed}")
+    n_seq = 60 if ctx.tier == "quick" else 3000
+    lines, want = [], []
+    for _ in range(n_seq):
+        lines.append("scenario devs")
+        want.append("ok")
+        h, pushed = [], 0
+        for _ in range(R.randrange(1, 40)):
+            if h and R.random() < 0.35:
+                m = heapq.heappop(h)
+                lines.append("hpop")
+                want.append("ok %d,%d,%d | " % m + " ".join("%d,%d,%d" % e for e in h))
+            elif not h and R.random() < 0.1:
+                lines.append("hpop")
+                want.append("err Index")
+            else:
+                e = (R.choice([0, 1, 1, 2, 3, 5, 8]) * 512, R.choice([1, 5, 10]), pushed)
+                pushed += 1
+                heapq.heappush(h, e)
+                lines.append("hpush %d %d" % e[:2])
+                want.append("ok " + " ".join("%d,%d,%d" % x for x in h))
+    got = core.run_driver(DRIVER, lines)
+    bad = next((i for i, (a, b) in enumerate(zip(got, want)) if a != b), None)
+    ctx.cov["heapq_layout_comparisons"] = len(lines)
+    if bad is not None:
+        j = max(k for k in range(bad + 1) if lines[k].startswith("scenario"))
+        ctx.violation("heapq-transcription", {"kind": "no-failing-input", "theorem_or_stream":
+                      "Lean transcription of heapq vs CPython heapq (array layout)", "ops": lines[j:bad + 1],
+                      "cpython": want[bad], "lean": got[bad]}, no_input=True)
